@@ -296,6 +296,17 @@ def h_connections(at1: int, at2: int, k: int, storage: str, reuse: bool) -> None
             cw.root()['y'] = pobj.PObj(v=1)
             tmw.commit()
             state = dict(done=1, started=1)
+            if storage == 'demo':
+                # the history so far becomes the base of a demo storage; one more commit goes into its changes
+                # before the reader connection is created
+                import ZODB.DemoStorage
+                cw.close()              # (the first DB object is left alone: closing it would close the base storage)
+                db = ZODB.DB(ZODB.DemoStorage.DemoStorage(base=s))
+                cw = db.open(tmw)
+                cw.root()['x'].v = 2
+                cw.root()['y'].v = 2
+                tmw.commit()
+                state = dict(done=2, started=2)
 
             def commit():
                 state['started'] += 1
@@ -348,6 +359,73 @@ def h_connections(at1: int, at2: int, k: int, storage: str, reuse: bool) -> None
     reached()
 
 
+def h_undo_invalidation(at1: int, reuse: bool) -> None:
+    """Connection level, undo: the writer undoes its two newest transactions (which wrote different objects) in ONE
+    undo transaction, injected anywhere into the activity of a reader connection that has both objects cached:
+    every reader transaction sees a committed state, and after the undo has completed the state it left."""
+    assume(0 <= at1)
+    with untraced():
+        import transaction
+        import ZODB
+        env = T.Env()
+        sch = locks.install(env.fs)
+        try:
+            db = ZODB.DB(env.filestorage())
+            tmw, tmr = transaction.TransactionManager(), transaction.TransactionManager()
+            cw = db.open(tmw)
+            cw.root()['x'] = pobj.PObj(v=1)
+            cw.root()['y'] = pobj.PObj(v=1)
+            tmw.commit()
+            cw.root()['x'].v = 2
+            tmw.commit()
+            cw.root()['y'].v = 3
+            tmw.commit()
+            states = [(1, 1), (2, 1), (2, 3)]        # committed states in commit order
+
+            def undo():
+                ids = [d['id'] for d in db.undoLog(0, 2)]
+                db.undoMultiple(ids, tmw.get())
+                tmw.commit()
+                states.append((1, 1))
+            sch.add(at1, undo, tid=1, name='undo of two transactions')
+            cr = db.open(tmr)
+            obs = []
+            with locks.line_points(_line_codes()):
+                sch.start()
+                try:
+                    for txn in range(3):
+                        floor = len(states) - 1
+                        sch.point('api')
+                        if reuse and txn == 1:
+                            cr.close()
+                            sch.point('api')
+                            floor = len(states) - 1
+                            cr = db.open(tmr)
+                        else:
+                            tmr.begin()
+                        sch.point('api')
+                        x = cr.root()['x'].v
+                        sch.point('api')
+                        y = cr.root()['y'].v
+                        sch.point('api')
+                        obs.append((floor, (x, y), len(states)))
+                        tmr.abort()
+                except locks.Blocked:
+                    note('blocked')
+                    sch.stop()
+                    assume(False)
+                sch.stop()
+            assume(not sch.pending)
+            for floor, vals, n in obs:
+                check(any(states[i] == vals for i in range(floor, n)),
+                      'a reader transaction saw a state that is not a committed state at or after its boundary (undo of two transactions)',
+                      obs, sch.trace)
+        finally:
+            locks.uninstall()
+            env.fs.hook = None
+    reached()
+
+
 from zverif.harness.c05 import h_abort_reader as _abort_reader  # noqa: E402
 
 from zverif.harness.c03 import h_commit_lock as _commit_order  # noqa: E402
@@ -383,8 +461,16 @@ HARNESSES = [
             symbolic='injection points at1 <= at2 over all yield points of the reader connection\'s activity',
             bounds='k = 1 or 2 commits; reader transactions: 2; with/without pool reuse', oracle='as above',
             code=['Connection.newTransaction/open/close/setstate/_flush_invalidations', 'DB.open/_returnToPool', 'MVCCAdapterInstance.*'],
-            quick=dict(timeout=170, shards=shards(k=[1], storage=['file', 'mapping'], reuse=[False, True])),
-            thorough=dict(timeout=1200, shards=shards(k=[1, 2], storage=['file', 'mapping'], reuse=[False, True]))),
+            quick=dict(timeout=170, shards=shards(k=[1], storage=['file', 'mapping'], reuse=[False, True]) + shards(k=[1], storage=['demo'], reuse=[False])),
+            thorough=dict(timeout=1200, shards=shards(k=[1, 2], storage=['file', 'mapping', 'demo'], reuse=[False, True]))),
+    Harness('undo_invalidation', h_undo_invalidation,
+            decides='an undo of two transactions (different objects) in one undo transaction, injected anywhere into a reader connection\'s '
+                    'activity: every reader transaction sees a committed state, afterwards the state the undo left',
+            symbolic='injection point over all yield points of the reader connection\'s activity',
+            bounds='one undo transaction undoing 2 transactions; reader transactions: 3; with/without pool reuse', oracle='set of committed states from the boundary on',
+            code=['DB.undoMultiple', 'UndoAdapterInstance.undo/tpc_finish', 'MVCCAdapter._invalidate_finish', 'Connection._flush_invalidations'],
+            quick=dict(timeout=170, shards=shards(reuse=[False, True])),
+            thorough=dict(timeout=600, shards=shards(reuse=[False, True]))),
     Harness('reader_overlap', h_reader_overlap,
             decides='a reader transaction (connection with an object cache) started at any yield point of a committer and SUSPENDED '
                     'wherever it has to wait - so that both are in the middle of an operation - still reads one point of the commit order, '
